@@ -13,6 +13,7 @@ import TonVerif.Proofs.Binding
 import TonVerif.Proofs.SrcArith
 import TonVerif.Generated.CellArith
 import TonVerif.Proofs.SrcCellCtor
+import TonVerif.Proofs.SrcCellEntry
 
 namespace TonVerif.Properties.C01
 open TonVerif TonVerif.Model TonVerif.Proofs.OrdCell
@@ -192,5 +193,75 @@ example (H : Bytes → Bytes) : (srcInfo H sample).isSome = true :=
   (c01_src_hash_depth H sample (by simp [sample, OrdWF, OrdWFs])).1.mpr (by simp [sample, ordDepth, ordDepthMax])
 
 end SrcCtor
+
+/-! ## Source-regenerated observers (`Generated/CellEntry.lean`: `Cell.get_representation`, `calculate_representation_hash`, the
+property `hash`, `__eq__`, `__hash__`, re-translated from cell.py on every run by harness/translate/cellentry.py + pyobj.py in the
+same program as the constructor, so `get_depth` / `get_hash` / `get_data_bytes` are the regenerated definitions above)
+
+Each regenerated function equals the hand model (`Model.representation`, `CellInfo.pyEq`, `CellInfo.pyHash`) for ALL inputs
+(`Proofs/SrcCellEntry.lean`); `c01_repr_agrees`, `c01_eq_iff_hash`, `c01_pyhash_iff_hash` are restated about what the source computes. -/
+section SrcEntry
+open TonVerif.Generated.CellCtor TonVerif.Generated.CellEntry TonVerif.Proofs.SrcCellCtor TonVerif.Proofs.SrcCellEntry
+
+/-- the equality behind the three theorems below: for EVERY info `i` (any cell type, level mask, stored hashes), every list of
+child infos and the descriptor bytes `d` the constructor stored for `i`, the regenerated `get_representation` returns the model's
+representation (same decision to raise: `_hashes[-2]`, `to_bytes(2)` of a child depth, a child's `get_hash` / `get_depth`) and the
+regenerated `calculate_representation_hash` its image under `H`; `__eq__` and `__hash__` never raise and return the model's values. -/
+theorem c01_src_observers (H : Bytes → Bytes) (i : CellInfo) (refs : List CellInfo) (d : Bytes)
+    (hd : descriptors i.nrefs (i.kind != kOrdinary) i.bits.length i.mask = some d) (b : CellInfo) :
+    get_representation (self__descriptors := d) (self_bits := i.bits) (self__hashes := i.hashes) (self_level_mask := i.mask)
+      (self_type_ := i.kind) (self_refs := refs) = representation i refs ∧
+    calculate_representation_hash H (self__descriptors := d) (self_bits := i.bits) (self__hashes := i.hashes)
+      (self_level_mask := i.mask) (self_type_ := i.kind) (self_refs := refs) = (representation i refs).map H ∧
+    pyeq (other := b) (self__hash := i.hash) = some (i.pyEq b) ∧ pyhash (self__hash := i.hash) = some i.pyHash :=
+  ⟨get_representation_eq i refs d hd, calculate_representation_hash_eq H i refs d hd, pyeq_eq i b, pyhash_eq i⟩
+
+/-- `c01_repr_agrees` for the regenerated code: for every ordinary cell of depth ≤ 1023 (any bit string, 0..4 references, any
+shape below) the REGENERATED constructor, applied bottom-up, builds the children (`ks`) and the cell (`o` = its attributes), and
+the REGENERATED `calculate_representation_hash()` on these attributes returns exactly the cached `Cell.hash` (`o.hash = _hash`). -/
+theorem c01_src_repr_agrees (H : Bytes → Bytes) (kind : Int) (bits : Bits) (refs : List Cell)
+    (wf : OrdWF (.mk kind bits refs)) (hd : ordDepth (.mk kind bits refs) ≤ 1023) :
+    ∃ o ks, srcInfos H refs = some ks ∧ init H bits ks kind = some o ∧
+      calculate_representation_hash H (self__descriptors := o.descriptors) (self_bits := o.bits) (self__hashes := o.hashes)
+        (self_level_mask := o.mask) (self_type_ := o.kind) (self_refs := ks) = some o.hash := by
+  obtain ⟨i, ks, h1, h2, h3⟩ := c01_repr_agrees H kind bits refs wf hd
+  have hc : construct H kind bits ks = some i := by
+    simpa [Cell.info, h2] using h1
+  refine ⟨CtorOut.ofModel i, ks, by rw [srcInfos_eq]; exact h2, by rw [src_construct_eq_model, hc]; rfl, ?_⟩
+  cases hdesc : descriptors i.nrefs (i.kind != kOrdinary) i.bits.length i.mask with
+  | none => simp [representation, hdesc] at h3
+  | some d =>
+    have := calculate_representation_hash_eq H i ks d hdesc
+    simp only [CtorOut.ofModel, hdesc, Option.getD_some]
+    rw [this, h3]
+
+/-- `c01_eq_iff_hash` for the regenerated `__eq__` (with the regenerated property `hash`): it never raises and returns `True`
+exactly when the two cached hashes are equal. -/
+theorem c01_src_eq_iff_hash (a b : CellInfo) :
+    ∃ r, pyeq (other := b) (self__hash := a.hash) = some r ∧ (r = true ↔ a.hash = b.hash) :=
+  ⟨a.pyEq b, pyeq_eq a b, c01_eq_iff_hash a b⟩
+
+/-- `c01_pyhash_iff_hash` for the regenerated `__hash__`: it never raises, and the dict keys of two cells coincide exactly when
+their hashes are equal (hashes being byte strings of equal length). -/
+theorem c01_src_pyhash_iff_hash (a b : CellInfo) (ha : Bytes.WF a.hash) (hb : Bytes.WF b.hash)
+    (hl : a.hash.length = b.hash.length) :
+    (pyhash (self__hash := a.hash)).isSome ∧ (pyhash (self__hash := a.hash) = pyhash (self__hash := b.hash) ↔ a.hash = b.hash) := by
+  rw [pyhash_eq, pyhash_eq]
+  refine ⟨rfl, ?_⟩
+  rw [Option.some_inj]
+  exact c01_pyhash_iff_hash a b ha hb hl
+
+/-! Non-vacuity: `sample` (5 bits, two references) meets the hypotheses of `c01_src_repr_agrees` for every hash function; the
+regenerated `__eq__` / `__hash__` on two concrete infos. -/
+example (H : Bytes → Bytes) : ∃ o ks, srcInfos H [.mk (-1) [] [], .mk (-1) [true] []] = some ks ∧
+    init H [true, false, true, true, false] ks (-1) = some o ∧
+    calculate_representation_hash H (self__descriptors := o.descriptors) (self_bits := o.bits) (self__hashes := o.hashes)
+      (self_level_mask := o.mask) (self_type_ := o.kind) (self_refs := ks) = some o.hash :=
+  c01_src_repr_agrees H (-1) _ _ (by simp [OrdWF, OrdWFs]) (by simp [ordDepth, ordDepthMax])
+
+example : pyeq (other := ⟨-1, [], 0, 0, [[1, 2]], [0]⟩) (self__hash := [1, 2]) = some true ∧
+    pyeq (other := ⟨-1, [], 0, 0, [[1, 3]], [0]⟩) (self__hash := [1, 2]) = some false ∧ pyhash (self__hash := [1, 2]) = some 258 := by decide
+
+end SrcEntry
 
 end TonVerif.Properties.C01
